@@ -212,6 +212,11 @@ def build_mc_exe(name, sources, atomic="c11", rwlock="posix", extra_plain=(), ex
                      plain_sources=MCRT_SOURCES + list(extra_plain))
 
 
+def build_free_exe(name, sources, atomic="c11", rwlock="posix"):
+    """harness linked with the library and engine/mcfree.c under the *real* ThreadSanitizer (conformance pass, free running)"""
+    return build_exe(name + "_free", "tsan", list(sources) + ["engine/mcfree.c"], atomic=atomic, rwlock=rwlock)
+
+
 def build_exe(name, variant, sources, objs=(), cflags=(), ldflags=(), atomic="c11", rwlock="posix", cc="gcc", nolib=False,
               exclude=(), plain_sources=()):
     """compile harness sources with the variant flags and link with library objects -> path of the executable."""
